@@ -23,7 +23,7 @@ import propkit
 import vlib
 
 MANIFEST = {
-  "text": "proof over R (Coquelicot): _poly_force is the coefficient c(x), _poly_force_deriv = d/dx (x*c(x)) for every x incl. 0 and both parities; poly_potential' = x*c(x) up to the source's binary64 constant 1/3 (_partial); the passive damper kernel stores -v*c(v) for hinge/slide dofs; _compute_damping_deriv stores minus d(damper force)/dv; _euler_damp_qfrc adds h*deriv at rowadr+rownnz-1 which under MuJoCo's CSR-lower invariant is the unique diagonal slot of that dof and of no other; _qderiv_actuator_passive stores M - h*(qDeriv + [i=j] d damper/dv); the actuator kernel's value is d force/d velocity for fixed/affine gain and bias (hand models), 0 when clamped by forcerange, and is REFUTED when ctrl is clamped by ctrlrange; deriv_rne_body2jnt_sparse adds with flg_subtract=False. RNE passes, fluid and tendon-damping kernels, assembly of the whole matrix and float32 are tested only (MuJoCo analytic qDeriv and float64 finite differences on random models).",
+  "text": "proof over R (Coquelicot): _poly_force is the coefficient c(x), _poly_force_deriv = d/dx (x*c(x)) for every x incl. 0 and both parities; poly_potential' = x*c(x) up to the source's binary64 constant 1/3 (_partial); the passive damper kernel stores -v*c(v) for hinge/slide dofs; _compute_damping_deriv stores minus d(damper force)/dv; _euler_damp_qfrc adds h*deriv at rowadr+rownnz-1 which under MuJoCo's CSR-lower invariant is the unique diagonal slot of that dof and of no other; _qderiv_actuator_passive stores M - h*(qDeriv + [i=j] d damper/dv); muscle_gain_vel = d muscle_gain/d velocity away from the FV breakpoints (_partial); the actuator kernel's value is d force/d velocity, taken at the ctrlrange-clamped control, for fixed/affine/muscle gain and bias and every non-DC-motor dynamics (hand models), and 0 when clamped by forcerange; deriv_rne_body2jnt_sparse adds with flg_subtract=False. RNE passes, fluid and tendon-damping kernels, assembly of the whole matrix and float32 are tested only (MuJoCo analytic qDeriv and float64 finite differences on random models).",
   "note": "trusted: Coq kernel + Coquelicot; translator bin/translate.py (validated each run: T-validation and traced-launch kernel validation); hand models Model/Deriv.v (compared with the real kernels each run); real-number axioms of Coq's Reals; MuJoCo 3.13 C as oracle; finite differences in float64 with step 1e-6",
   "technique": "Rocq proof over machine-translated functions/kernels (T) and two validated hand models, plus translation validation and a differential + finite-difference oracle",
   "engine": "coq",
@@ -79,10 +79,10 @@ def _random_actuators(rng, n, restricted):
   from mujoco_warp._src.types import vec10
 
   P = {}
-  dyn_choices = [0, 1, 2, 3, 7] if restricted else [0, 1, 2, 3, 4, 5, 7]
+  dyn_choices = [0, 1, 2, 3, 4, 7] if restricted else [0, 1, 2, 3, 4, 5, 7]
   P["dyntype"] = rng.choice(dyn_choices, n).astype(np.int32)
-  P["gaintype"] = rng.choice([0, 1, 6] if restricted else [0, 1, 1, 2, 3, 6], n).astype(np.int32)
-  P["biastype"] = rng.choice([0, 1, 5] if restricted else [0, 1, 1, 2, 3, 5], n).astype(np.int32)
+  P["gaintype"] = rng.choice([0, 1, 2, 6] if restricted else [0, 1, 1, 2, 2, 3, 6], n).astype(np.int32)
+  P["biastype"] = rng.choice([0, 1, 2, 5] if restricted else [0, 1, 1, 2, 3, 5], n).astype(np.int32)
   P["actnum"] = np.where(P["dyntype"] == 0, 0, rng.integers(1, 4, n)).astype(np.int32)
   P["actadr"] = np.where(P["dyntype"] == 0, -1, 3 * np.arange(n)).astype(np.int32)
   r32 = lambda *s: rng.normal(0, 1, s).astype(np.float32)  # noqa: E731
@@ -93,6 +93,16 @@ def _random_actuators(rng, n, restricted):
   zero = rng.random((n, 10)) < 0.25
   gainprm[zero] = 0
   biasprm[rng.random((n, 10)) < 0.25] = 0
+  # muscle parameters (range0 range1 force scale lmin lmax vmax fpmax fvmax) around MuJoCo's defaults
+  for arr, sel in ((gainprm, P["gaintype"] == 2), (biasprm, P["biastype"] == 2)):
+    k = int(sel.sum())
+    if k:
+      base = np.array([0.75, 1.05, -1.0, 200.0, 0.5, 1.6, 1.5, 1.3, 1.2, 0.0], dtype=np.float32)
+      mp = base[None] * rng.uniform(0.8, 1.25, (k, 10)).astype(np.float32)
+      mp[:, 2] = np.where(rng.random(k) < 0.5, -1.0, rng.uniform(0.5, 3, k))
+      arr[sel] = mp
+  mus_dyn = P["dyntype"] == 4
+  dynprm[mus_dyn, :3] = rng.uniform(0.01, 0.1, (int(mus_dyn.sum()), 3)).astype(np.float32)
   if not restricted:
     # DC-motor parameters: te sign, controller mode, temperature / slew / integral slots, LuGre sigma1
     dynprm[:, 0] = np.where(rng.random(n) < 0.5, np.abs(dynprm[:, 0]), -np.abs(dynprm[:, 0]) * (rng.random(n) < 0.5))
@@ -121,6 +131,9 @@ def _random_actuators(rng, n, restricted):
   P["ctrl"] = r32(n)
   P["length"] = r32(n)
   P["velocity"] = (r32(n) * 3).astype(np.float32)
+  P["acc0"] = (np.abs(r32(n)) + 0.1).astype(np.float32)
+  lr0 = r32(n) * 0.3
+  P["lengthrange"] = np.stack([lr0, lr0 + np.abs(r32(n)) + 0.2], 1).astype(np.float32)
   P["force"] = r32(n)
   P["vec10"] = vec10
   return P
@@ -144,6 +157,7 @@ def model_corr_vel(res, n):
   rng = np.random.default_rng(vlib.seed() + 2701)
   P = _random_actuators(rng, n, restricted=False)
   h = np.float32(rng.choice([0.002, 0.01, 0.05]))
+  dsbl = int(rng.integers(0, 2))
   vel = wp.zeros((1, n), dtype=float)
   v10 = P["vec10"]
   by_name = dict(
@@ -152,8 +166,11 @@ def model_corr_vel(res, n):
     actuator_dynprm=wp.array(P["dynprm"][None], dtype=v10), actuator_gainprm=wp.array(P["gainprm"][None], dtype=v10), actuator_biasprm=wp.array(P["biasprm"][None], dtype=v10),
     actuator_actlimited=wp.array(P["actlimited"], dtype=wp.bool), actuator_actrange=wp.array(P["actrange"][None], dtype=wp.vec2), actuator_actearly=wp.array(P["actearly"], dtype=wp.bool),
     actuator_forcelimited=wp.array(P["forcelimited"], dtype=wp.bool), actuator_forcerange=wp.array(P["forcerange"][None], dtype=wp.vec2),
+    actuator_ctrllimited=wp.array(P["ctrllimited"], dtype=wp.bool), actuator_ctrlrange=wp.array(P["ctrlrange"][None], dtype=wp.vec2),
+    actuator_acc0=wp.array(P["acc0"][None], dtype=float), actuator_lengthrange=wp.array(P["lengthrange"][None], dtype=wp.vec2),
     act_in=wp.array(P["act"][None], dtype=float), ctrl_in=wp.array(P["ctrl"][None], dtype=float), act_dot_in=wp.array(P["act_dot"][None], dtype=float),
-    actuator_force_in=wp.array(P["force"][None], dtype=float), vel_out=vel,
+    actuator_length_in=wp.array(P["length"][None], dtype=float), actuator_velocity_in=wp.array(P["velocity"][None], dtype=float),
+    actuator_force_in=wp.array(P["force"][None], dtype=float), dsbl_clampctrl=dsbl, vel_out=vel,
   )  # fmt: skip
   args, unknown = _args_by_name(D._qderiv_actuator_passive_vel, by_name)
   if unknown:
@@ -171,19 +188,20 @@ def model_corr_vel(res, n):
     lines.append(
       f"tv3 {fh(2e-4)} (fun Sc => [@qderiv_vel_model float Sc {fh(h)} ({int(P['dyntype'][i])})%Z ({int(P['gaintype'][i])})%Z ({int(P['biastype'][i])})%Z "
       f"({adr0})%Z ({int(P['actnum'][i])})%Z {fl(P['dynprm'][i])} {fl(P['gainprm'][i])} {fl(P['biasprm'][i])} {_b(P['actlimited'][i])} {fl(P['actrange'][i])} "
-      f"{_b(P['actearly'][i])} {_b(P['forcelimited'][i])} {fl(P['forcerange'][i])} {fl(P['act'][sl])} {fh(P['ctrl'][i])} {fl(P['act_dot'][sl])} {fh(P['force'][i])}]) {fl([out[i]])}"
+      f"{_b(P['actearly'][i])} {_b(P['forcelimited'][i])} {fl(P['forcerange'][i])} {_b(P['ctrllimited'][i])} {fl(P['ctrlrange'][i])} {fh(P['acc0'][i])} {fl(P['lengthrange'][i])} {fl(P['act'][sl])} {fh(P['ctrl'][i])} {fl(P['act_dot'][sl])} "
+      f"{fh(P['length'][i])} {fh(P['velocity'][i])} {fh(P['force'][i])} ({dsbl})%Z]) {fl([out[i]])}"
     )
     res.nontrivial(("vel-model", int(P["dyntype"][i]), int(P["gaintype"][i]), int(P["biastype"][i]), bool(P["actearly"][i]), bool(P["forcelimited"][i])))
   verdicts = tvalid.run_cases("C27v", ["Model.Deriv"], lines)
   res.count(n)
   res.extra["model_vel_correspondence"] = {"agree": verdicts.count(0), "discarded": verdicts.count(1), "disagree": verdicts.count(2)}
   res.sample({"kind": "hand model vs _qderiv_actuator_passive_vel", "dyntype": int(P["dyntype"][0]), "gaintype": int(P["gaintype"][0]), "biastype": int(P["biastype"][0]), "kernel_value": float(out[0])})
-  keys = ("dyntype", "gaintype", "biastype", "actadr", "actnum", "dynprm", "gainprm", "biasprm", "actlimited", "actrange", "actearly", "forcelimited", "forcerange", "ctrl", "force")
+  keys = ("dyntype", "gaintype", "biastype", "actadr", "actnum", "dynprm", "gainprm", "biasprm", "actlimited", "actrange", "actearly", "forcelimited", "forcerange", "ctrllimited", "ctrlrange", "acc0", "lengthrange", "ctrl", "length", "velocity", "force")
   return [{"case": i, "kernel_value": float(out[i]), **{k: np.asarray(P[k][i]).tolist() for k in keys}} for i, v in enumerate(verdicts) if v == 2]
 
 
 def model_corr_force(res, n):
-  """actuator_force_model vs the real forward._actuator_force (non-muscle, non-DC types)."""
+  """actuator_force_model vs the real forward._actuator_force (all non-DC-motor types)."""
   import warp as wp
 
   import tvalid
@@ -205,7 +223,7 @@ def model_corr_force(res, n):
     actuator_actlimited=wp.array(P["actlimited"], dtype=wp.bool), actuator_actrange=wp.array(P["actrange"][None], dtype=wp.vec2), actuator_actearly=wp.array(P["actearly"], dtype=wp.bool),
     actuator_forcelimited=wp.array(P["forcelimited"], dtype=wp.bool), actuator_forcerange=wp.array(P["forcerange"][None], dtype=wp.vec2),
     actuator_ctrllimited=wp.array(P["ctrllimited"], dtype=wp.bool), actuator_ctrlrange=wp.array(P["ctrlrange"][None], dtype=wp.vec2),
-    actuator_acc0=wp.ones((1, n), dtype=float), actuator_lengthrange=wp.array(np.tile(np.array([[-1.0, 1.0]], dtype=np.float32), (n, 1))[None], dtype=wp.vec2),
+    actuator_acc0=wp.array(P["acc0"][None], dtype=float), actuator_lengthrange=wp.array(P["lengthrange"][None], dtype=wp.vec2),
     act_in=wp.array(P["act"][None], dtype=float), ctrl_in=wp.array(P["ctrl"][None], dtype=float), actuator_length_in=wp.array(P["length"][None], dtype=float),
     actuator_velocity_in=wp.array(P["velocity"][None], dtype=float), dsbl_clampctrl=dsbl, act_dot_out=act_dot, actuator_force_out=force,
   )  # fmt: skip
@@ -225,14 +243,14 @@ def model_corr_force(res, n):
     lines.append(
       f"tv3 {fh(2e-4)} (fun Sc => let r := @actuator_force_model float Sc ({na})%Z {fh(h)} ({int(P['dyntype'][i])})%Z ({int(P['gaintype'][i])})%Z ({int(P['biastype'][i])})%Z "
       f"({adr0})%Z ({int(P['actnum'][i])})%Z {fl(P['dynprm'][i])} {fl(P['gainprm'][i])} {fl(P['biasprm'][i])} {_b(P['actlimited'][i])} {fl(P['actrange'][i])} "
-      f"{_b(P['actearly'][i])} {_b(P['forcelimited'][i])} {fl(P['forcerange'][i])} {_b(P['ctrllimited'][i])} {fl(P['ctrlrange'][i])} {fl(P['act'][sl])} {fh(P['ctrl'][i])} "
+      f"{_b(P['actearly'][i])} {_b(P['forcelimited'][i])} {fl(P['forcerange'][i])} {_b(P['ctrllimited'][i])} {fl(P['ctrlrange'][i])} {fh(P['acc0'][i])} {fl(P['lengthrange'][i])} {fl(P['act'][sl])} {fh(P['ctrl'][i])} "
       f"{fh(P['length'][i])} {fh(P['velocity'][i])} ({dsbl})%Z in [fst r; snd r]) {fl(exp)}"
     )
     res.nontrivial(("force-model", int(P["dyntype"][i]), int(P["gaintype"][i]), int(P["biastype"][i]), bool(P["actearly"][i]), bool(P["forcelimited"][i]), bool(P["ctrllimited"][i])))
   verdicts = tvalid.run_cases("C27f", ["Model.Deriv"], lines)
   res.count(n)
   res.extra["model_force_correspondence"] = {"agree": verdicts.count(0), "discarded": verdicts.count(1), "disagree": verdicts.count(2)}
-  keys = ("dyntype", "gaintype", "biastype", "actadr", "actnum", "dynprm", "gainprm", "biasprm", "actlimited", "actrange", "actearly", "forcelimited", "forcerange", "ctrllimited", "ctrlrange", "ctrl", "length", "velocity")
+  keys = ("dyntype", "gaintype", "biastype", "actadr", "actnum", "dynprm", "gainprm", "biasprm", "actlimited", "actrange", "actearly", "forcelimited", "forcerange", "ctrllimited", "ctrlrange", "acc0", "lengthrange", "ctrl", "length", "velocity")
   return [{"case": i, "kernel_force": float(fo[i]), **{k: np.asarray(P[k][i]).tolist() for k in keys}} for i, v in enumerate(verdicts) if v == 2]
 
 
@@ -501,8 +519,12 @@ def build_model(rng, feat):
     act_kinds=("position", "velocity", "general", "motor"), tendons=int(rng.integers(1, 3)) if feat["tendon"] else 0,
     gravity=bool(rng.random() < 0.5), sites=0.8, damping=0.6,
   )  # fmt: skip
-  xml, _ = models.random_model(rng, o)
-  xml = xml.replace(' ctrllimited="true" ctrlrange="-0.7 0.9"', "")  # clamped ctrl: directed case (known defect)
+  xml, info = models.random_model(rng, o)
+  # ctrllimited actuators stay in (random ctrl is often outside ctrlrange: the repaired clamp is exercised)
+  scalar = [j for j in info["joints"] if j[1] in ("hinge", "slide")]
+  if feat.get("muscle") and scalar and "</actuator>" in xml:
+    jn = scalar[int(rng.integers(len(scalar)))][0]
+    xml = xml.replace("</actuator>", f'<muscle name="amus" joint="{jn}" lengthrange="-1.5 1.5" vmax="{rng.uniform(0.5, 3):.3f}" fvmax="{rng.uniform(1.1, 1.6):.3f}"/></actuator>')
   if not feat["forcelimited"]:
     xml = xml.replace(' forcelimited="true" forcerange="-0.5 0.6"', "")
   if feat["ellipsoid"]:
@@ -607,9 +629,9 @@ def oracle(res, nmodels):
   rng = np.random.default_rng(vlib.seed() + 2704)
   fails = []
   inv_bad = []
-  stats = {"models": 0, "states": 0, "skipped_nv0": 0, "csr_invariant_checked": 0}
+  stats = {"models": 0, "states": 0, "skipped_nv0": 0, "csr_invariant_checked": 0, "models_with_muscle": 0, "models_with_clamped_ctrl": 0}
   for k in range(nmodels):
-    feat = dict(poly=bool(k % 2), tendon=bool(k % 3 == 0), fluid=bool(k % 4 in (1, 2)), ellipsoid=bool(k % 8 in (2, 5)), forcelimited=bool(k % 5 == 3),
+    feat = dict(poly=bool(k % 2), tendon=bool(k % 3 == 0), fluid=bool(k % 4 in (1, 2)), ellipsoid=bool(k % 8 in (2, 5)), forcelimited=bool(k % 5 == 3), muscle=bool(k % 3 == 2),
                 jac=["dense", "sparse"][k % 2], vel=float(10 ** rng.uniform(-0.5, 1.3)))  # fmt: skip
     xml, edits, m, d = build_model(rng, feat)
     if m.nv == 0:
@@ -620,8 +642,10 @@ def oracle(res, nmodels):
       inv_bad.append({"xml": xml, "M_rownnz": m.M_rownnz.tolist(), "M_rowadr": m.M_rowadr.tolist(), "M_colind": m.M_colind.tolist()})
     state1 = None
     if k % 3 == 1:
-      state1 = ((rng.normal(0, feat["vel"], m.nv)).astype(np.float32), rng.normal(0, 1, m.nu).astype(np.float32), rng.normal(0, 0.5, m.na).astype(np.float32))
+      state1 = ((rng.normal(0, feat["vel"], m.nv)).astype(np.float32), rng.normal(0, 1, m.nu).astype(np.float32), rng.uniform(0, 1, m.na).astype(np.float32))
     stats["models"] += 1
+    stats["models_with_muscle"] += int(np.any(m.actuator_gaintype == 2))
+    stats["models_with_clamped_ctrl"] += int(any(m.actuator_ctrllimited[i] and not (m.actuator_ctrlrange[i, 0] <= d.ctrl[i] <= m.actuator_ctrlrange[i, 1]) for i in range(m.nu)))
     for integ in (IMPLICITFAST, IMPLICIT):
       bad = compare_one(m, d, integ, state1)
       res.count(2 if state1 is not None else 1)
@@ -713,7 +737,7 @@ def classify(f):
   if f["integrator"] == IMPLICIT and ft["ellipsoid"] and ft["fluid"] and f["lower_triangle_agrees"]:
     return K_ELLIPS
   tag = "implicit" if f["integrator"] == IMPLICIT else "implicitfast"
-  feats = "+".join(k for k in ("fluid", "ellipsoid", "poly", "tendon", "forcelimited") if ft[k]) or "plain"
+  feats = "+".join(k for k in ("fluid", "ellipsoid", "poly", "tendon", "forcelimited", "muscle") if ft.get(k)) or "plain"
   return f"C27:oracle:{tag}:qderiv-mismatch:{feats}:{ft['jac']}"
 
 
@@ -804,14 +828,14 @@ def run(res):
       tr_ok = tr_ok and have
   tbad = []
   if trs.get("T_util_misc") is not None:
-    tbad = tvalidate(res, trs["T_util_misc"], 40 if quick else 600)
+    tbad = tvalidate(res, trs["T_util_misc"], 30 if quick else 600)
     res.obligation("T-validation: translated _poly_force/_poly_force_deriv/poly_potential agree with compiled Warp", not tbad, f"{len(tbad)} disagreements")
   lap("tvalidate")
   mbad = []
   if ok:
-    vb = model_corr_vel(res, 160 if quick else 1600)
+    vb = model_corr_vel(res, 90 if quick else 1600)
     res.obligation("correspondence: qderiv_vel_model vs real _qderiv_actuator_passive_vel", not vb, f"{len(vb)} disagreements; {res.extra.get('model_vel_correspondence', vb[:1])}")
-    fb = model_corr_force(res, 120 if quick else 1200)
+    fb = model_corr_force(res, 60 if quick else 1200)
     res.obligation("correspondence: actuator_force_model vs real _actuator_force", not fb, f"{len(fb)} disagreements; {res.extra.get('model_force_correspondence', fb[:1])}")
     mbad = vb + fb
   lap("hand-model correspondence")
@@ -845,7 +869,7 @@ def run(res):
   res.assumptions += [
     "float32 rounding is not modelled: theorems are over R; oracle tolerance as in `rule`",
     "qderiv_vel_model / actuator_force_model are hand copies (translator rejects dcmotor_slots' vector element assignment); they are compared with the real kernels on every run",
-    "the actuator theorem covers fixed/affine/user gain and none/affine/user bias with non-muscle non-DC dynamics; DC-motor branches are only in the correspondence, muscle gain is a recorded defect",
+    "the actuator theorem covers fixed/affine/muscle/user gain and none/affine/muscle/user bias with every non-DC-motor dynamics type; muscle gain only away from the three FV breakpoints; DC-motor branches are only in the correspondence",
     "RNE passes, fluid derivative kernels, tendon damping kernel and the assembly over all dof pairs are covered by the oracle only",
     "implicitfast is compared with the symmetrised derivative without the bias term on M's pattern (the integrator's documented approximation); childless free bodies are compared with finite differences only (MuJoCo 3.13 differs there: C08:implicitfast:childless-free-body-rne-derivative)",
     "derivatives w.r.t. joint/tendon actuator force limits (actuatorfrcrange) are ignored by MuJoCo and MJWarp alike and are not generated",
